@@ -137,6 +137,16 @@ def ntlm_scripts(work, tier, seed):
                 if x["a"] == "garbage":
                     x["g"] = "short-neg"
         scripts.append({"id": "n%05d" % i, "origin": "graph", "target": target, "actions": acts})
+    # a failed attempt followed, without a new negotiate, by a message that names another user: whatever the service
+    # remembers of the first attempt proves nothing for the second
+    k = 0
+    for first in (("bob", "wrong"), ("bob", "right"), ("ghost", "right"), ("alice", "wrong"), ("empty", "right")):
+        for second in (("alice", "asbob"), ("alice", "wrong"), ("bob", "asbob"), ("ALICE", "asbob"), ("ghost", "asbob"), ("alice", "right")):
+            for target in ("direct", "grpc"):
+                acts = [{"a": "neg", "s": "s1"}, {"a": "auth", "s": "s1", "u": first[0], "pw": first[1], "src": "s1"},
+                        {"a": "auth", "s": "s1", "u": second[0], "pw": second[1], "src": "s1"}, {"a": "replay", "s": "s1"}]
+                scripts.append({"id": "na%05d" % k, "origin": "second-attempt", "target": target, "actions": acts})
+                k += 1
     # seeded random long histories
     for i in range(100 if tier == "quick" else 3000):
         acts = []
@@ -146,7 +156,7 @@ def ntlm_scripts(work, tier, seed):
             if x < 0.3:
                 acts.append({"a": "neg", "s": s})
             elif x < 0.75:
-                acts.append({"a": "auth", "s": s, "u": rng.choice(["alice", "alice", "ghost", "empty"]), "pw": rng.choice(["right", "right", "wrong"]), "src": rng.choice([s, s, "s1", "s2"])})
+                acts.append({"a": "auth", "s": s, "u": rng.choice(["alice", "alice", "bob", "ghost", "empty"]), "pw": rng.choice(["right", "right", "wrong", "asbob"]), "src": rng.choice([s, s, "s1", "s2"])})
             elif x < 0.85:
                 acts.append({"a": "replay", "s": s})
             else:
